@@ -254,7 +254,7 @@ def float_monitors(chk, tier):
     reset_manager()
 
 
-def dense_count_sweep(chk, tier):
+def dense_count_sweep(chk, tier, only=None):
     """Udt must be the Ndense-th power of the elementary step for EVERY time step / dense setting: a two-level system with a
     diagonal Hamiltonian and no relaxation makes the coherence element U[0,1,0,1] the scalar z^Ndense, z the order-4 Taylor value
     of exp(-i w dt_dense), so the number of contracted dense steps is read off exactly (cheap: sweeps all settings)."""
@@ -265,6 +265,8 @@ def dense_count_sweep(chk, tier):
     denses = list(range(1, 121)) if tier != "quick" else [d for d in range(1, 121)]
     w = 0.01
     bad = 0
+    if only is not None:
+        steps, denses = [only[0]], [only[1]]
     for step in steps:
         for nd in denses:
             reset_manager()
@@ -310,6 +312,8 @@ def main():
         rep = json.load(open(args.replay))
         c = rep.get("input")
         cases = [c] if isinstance(c, dict) and c.get("kind") == "exact" else []
+        if isinstance(c, dict) and c.get("kind") == "dense_count":
+            dense_count_sweep(chk, args.tier, only=(c["step"], c["ndense"]))
     else:
         r = cm.rng(PID)
         cases = [gen_case(r, k) for k in range(16 if args.tier == "quick" else 160)]
